@@ -210,6 +210,9 @@ func handleDemonAgent(Teamserver agent.TeamServer, Header agent.Header, External
 										break
 									}
 
+								} else {
+									/* nothing left to unwrap: going round again would never end */
+									break
 								}
 
 							}
